@@ -27,17 +27,17 @@ CHECKS = {
  "C08": dict(
   level="exploration", design="6/C08", engine="sse-product",
   technique="bounded exhaustive enumeration: words with negative / nodata letters (ordering inside each pixel), extremes ladders base*10^k for k=-300..6 over shapes 0.5..1e4, and every placement of every kind of unfittable pixel in a 2x2 cube x dtypes x grouped",
-  text="Non-decreasing indices, equal -> equal, nodata/negative -> nodata, saturation instead of wrap, no exception, neighbours unaffected.",
+  text="Non-decreasing indices, equal -> equal, nodata/negative -> nodata (and replacing negatives by nodata changes nothing), saturation instead of wrap, no exception, neighbours unaffected; dense ladders of 321 quantile levels (-6..6 sigma) with zero shares 0..0.8.",
   note="The saturation value itself is not pinned by the statement; only order preservation is demanded beyond the int16 range."),
  "C09": dict(
   level="exploration", design="6/C09", engine="sse-product",
   technique="bounded exhaustive enumeration of time axes (subsets of a 9-position lattice) x all begin/end dates on/between/before/after steps, and of set partitions x label spellings for groups; index reference + differential grouped vs per-group ungrouped path",
-  text="Window membership, attrs, ValueError for every invalid window and only those, grouped == per-group ungrouped, spelling invariance, single group == ungrouped, to_linspace / get_calibration_indices directly, 36 dekad groups.",
+  text="Window membership, attrs, ValueError for every invalid window and only those, grouped == per-group ungrouped, spelling invariance, single group == ungrouped, to_linspace / get_calibration_indices directly, 36 dekad groups; axes stamped at 10:30 with begin/end at three times of day; far-away sentinel dates (years 1..9999); call sequences in one process over 21 axes with equal extent.",
   note="Axes of 5 steps (quick) / 3..6 steps (thorough) for windows; 6..7 (9) steps for groups."),
  "C10": dict(
   level="model_checking", design="6/C10", engine="sse-trie",
   technique="explicit-state exploration of the trie of all weak orderings (rank patterns) of 2..7/8 points, exact reference (integer S, rational variance and Sen slope) on every state, S-increment relation on every edge, symmetry relations; 4 kernel entry points + accessor",
-  text="All 52608 (598443) rank patterns; tau, p, slope, flag compared with exact values (float32 1 ulp); x->2x+3, x^3, -x, reversal; all-nodata pixels.",
+  text="All 52608 (598443) rank patterns; tau, p, slope, flag compared with exact values (float32 1 ulp); x->2x+3, x^3, -x, reversal; all-nodata pixels (also nodata=0); all words over three values n=8..9 (11); patterns spread over the whole int16 range; decision-boundary family: for every n<=80 (200) and 8 tie structures the smallest significant and largest non-significant score.",
   note="Threshold guard |p-0.05|>1e-9 never triggers in scope (min 1.3e-3)."),
  "C11": dict(
   level="model_checking", design="6/C11", engine="calendar",
@@ -47,57 +47,57 @@ CHECKS = {
  "C15": dict(
   level="model_checking", design="6/C15", engine="sse-trie",
   technique="explicit-state exploration of the input trie over {ND,a,b,c} (length 3..9/10) with a streaming exact-integer reference (ten running sums), int/nodata vs float/NaN, (y,x,t) vs (t,y,x), affine invariance, accessor numpy/dask; 900-step outage family",
-  text="All 349k (1.4M) words; value, range [-1,1], encodings, layouts, affine maps.",
+  text="All 349k (1.4M) words; value, range [-1,1], encodings, layouts, affine maps; large-offset alphabet (30000+{0,1,5}); nearly flat plateaus n=30..900; nodata=0 attribute.",
   note="Tolerance 2e-6 absolute (float32 outputs)."),
  "C16": dict(
   level="exploration", design="6/C16", engine="sse-product",
   technique="bounded exhaustive enumeration of zone x value assignments for rasters of 1..5/6 pixels x num_zones x dtype, boundary zone sizes 2^24-1, 2^24, 2^24+2, 25M, 1000 zones, all 720 pixel permutations, accessor numpy/dask",
-  text="Exact mean (2 ulp of output dtype) and exact count, NaN/0 for empty zones, zone-nodata pixels excluded, rearrangement invariance.",
+  text="Exact mean (2 ulp of output dtype) and exact count, NaN/0 for empty zones, zone-nodata pixels excluded, rearrangement invariance; zone rasters of every integer dtype with fill values outside int16.",
   note="Large zones use integer-valued pixels (exact float64 sums)."),
  "C18": dict(
   level="model_checking", design="6/C18", engine="sse-trie",
   technique="explicit-state exploration of the binary input trie (length 1..16/18) with a run-length automaton and edge relations; long-run family beyond 255 / 65535; non-binary alphabet; croo under all permutations of the stored time order",
-  text="All 131070 binary words, runs up to 1000 (70000), all 720 stored orders for words up to length 6.",
+  text="All 131070 binary words, runs up to 1000 (70000), all 720 stored orders for words up to length 6, time axes before / across 1970, one object relabelled in place through all 120 orders.",
   note="croo is only claimed for binary series (the property's quantifier)."),
  "C19": dict(
   level="model_checking", design="6/C19", engine="sse-trie",
   technique="exhaustive exploration of the generator: axis length 1..8/12 x n x begin x end x lookup method x reducer x dim kind, every next() compared with the reference window list; off-axis labels must raise ValueError",
-  text="Every configuration inside the bound, time and numeric dims, NaN data.",
+  text="Every configuration inside the bound, time and numeric dims (incl. fractional labels on integer axes), NaN data; int16 / int32 / uint8 / bool / float32 cubes.",
   note="Lookup methods follow pandas get_indexer semantics; nearest ties accept either neighbour."),
  "C20": dict(
   level="exploration", design="6/C20", engine="sse-product",
   technique="bounded exhaustive enumeration of templates (n obs 2..4/5, gaps 0..3, head/tail) x all contiguous labelings x value words; reference curve at lambda=1e-5 (refined float, cross-checked with rationals), period means, tie band; inputs unmodified; accessor; long regular families",
-  text="158 templates x 2^(L-1) labelings x value words; lines in day number give exact period means.",
+  text="158 templates x 2^(L-1) labelings (increasing, descending and zig-zag label ids) x value words; lines in day number give exact period means.",
   note="Either neighbour accepted within 1e-6 of a rounding tie."),
  "C01": dict(
   level="exploration", design="6/C01", engine="sse-product",
   technique="bounded exhaustive enumeration (n 4..9/12 x all 0/1 weight patterns x lambda grid x impulse basis): the real ws2d source executed on Fractions vs an independent dense rational solve; compiled ws2d vs the exact solution",
-  text="Every weight pattern with >=2 positive weights up to the length bound, 7 lambdas over 1e-6..1e8 and a basis of right-hand sides; exact clause decided without tolerance on the real source, float clause against the exact rational solution. 87 listed (n,w,lambda) triples at lambda=1e8 exceed 1e-6 and are known findings.",
+  text="Every weight pattern with >=2 positive weights up to the length bound, 7 lambdas over 1e-6..1e8 and a basis of right-hand sides; exact clause decided without tolerance on the real source, float clause against the exact rational solution; long series (n 50..220/400) with zero-weight runs of up to 200 cells; lambda given as int / NumPy integer / float32. 89 listed cases at lambda=1e8 exceed 1e-6 and are known findings.",
   note="All y covered through linearity (impulse basis) rather than enumeration of reals; n > 12 only by a deterministic family; float results are those of this CPU / LLVM target."),
  "C02": dict(
   level="exploration", design="6/C02", engine="sse-product",
   technique="bounded exhaustive differential exploration: every word over {ND,lo,mid,hi} (len 4..7/8) x 6 placeholder encodings x 8 smoother variants x parameter grid, compared bit-exactly across encodings; gap-fill via self-consistency with the fixed-lambda smoother and the C03 reference",
-  text="All 21760 (87296) words, 40 variant/parameter points, six encodings of the missing cells, kernels and accessors; complete inside the bound.",
+  text="All 21760 (87296) words, 40 variant/parameter points, seven encodings of the missing cells (nodata below / inside / above the data, 0, NaN, +inf, -inf), kernels and accessors (also nodata=0 against a conflicting attribute); the fourth difference of every band must vanish at missing cells; complete inside the bound.",
   note="Bit-exact equality across encodings is demanded (zero weight annihilates the placeholder exactly). Bound: length <= 7/8, three data letters."),
  "C03": dict(
   level="exploration", design="6/C03", engine="sse-product",
   technique="bounded exhaustive enumeration of words x lambda x p against a reference PLS / 10-pass asymmetric reweighting built from the definition (float64 + long-double refinement, cross-checked with exact rationals), rounding with tie guard band",
-  text="Every word with >=2 valid cells x 6 lambdas x {none,4 p}; whits(s=), whits(sg=raster incl. -inf), p, six dimension orders; deterministic long series n=50..400.",
+  text="Every word with >=2 valid cells x 6 lambdas x {none,4 p}; whits(s=), whits(sg=raster incl. -inf, also handed over transposed), p incl. 0.5, six dimension orders; deterministic long series n=50..400 incl. series that have not converged after 10 reweighting passes.",
   note="Either neighbour accepted within 1e-5 of a rounding tie; curves leaving int16 excluded (none in scope)."),
  "C04": dict(
   level="exploration", design="6/C04", engine="sse-product",
   technique="bounded exhaustive enumeration of words x uniformly spaced sranges x p x lc; V-curve recomputed from its definition with condition-number error bounds (admissible arg-min sets), bit-exact self-consistency with the fixed-lambda smoother, grid choice differential",
-  text="Structure, optimality (asymmetric: union of three readings), self-consistency, float32 sgrid and lc grid choice on all words of length 5..7/8 and 12/96 sranges.",
+  text="Structure, optimality (asymmetric: union of three readings), bit-exact self-consistency, float32 sgrid and lc grid choice on all words of length 5..7/8 and 12/96 sranges, p in {none,.1,.5,.9}; long series n=50..400 (optimality, and self-consistency with extreme p where the reweighting does not converge); lc rasters matched by name.",
   note="Admissible set derived from reference quantities only; ambiguous (tied / degenerate) cases are counted in the evidence."),
  "C05": dict(
   level="exploration", design="6/C05", engine="sse-product",
   technique="bounded exhaustive enumeration of words (>=5 valid), flat-with-spikes {0,5,50}^8, constants and lines with all gap patterns x sranges x robust x p; GCV arg-min under two trace definitions with error bounds; robust mode checked on what the statement fixes",
-  text="Non-robust: grid membership, arg-min admissibility, band = fixed smoother at lopt. Robust: grid membership, lines/constants reproduced, band straddles the data (sum w(y-z)=0 necessary condition), sanity bound.",
+  text="Non-robust: grid membership, arg-min admissibility, band = fixed smoother at lopt. Robust: grid membership, lines/constants reproduced, band straddles the data (sum w(y-z)=0 necessary condition), sanity bound. All variants: optimality (KKT) conditions of a weighted Whittaker curve at the reported lambda; long series n=50..200; accessor defaults incl. p=0.5.",
   note="Robust constants (4.685, 1.4826, passes) are not pinned; placeholder invariance of robust mode is decided in C02."),
  "C06": dict(
   level="exploration", design="6/C06", engine="sse-product",
   technique="bounded exhaustive metamorphic exploration: every line x gap pattern, every word x 5 offsets, every word reversed, through all 8 variants and their parameter grids; ties decided from reference margins",
-  text="Lines reproduced exactly; offsets and reversal commute except at reference-decided rounding / criterion ties. 6 listed inputs of the robust variants are known findings.",
+  text="Lines reproduced exactly; offsets and reversal (copy and strided view) commute except at reference-decided rounding / criterion ties. 6 listed inputs of the robust variants are known findings.",
   note="Robust variants: a different lambda is tolerated only when the bands agree; their alphabet is seed-independent because of the listed findings."),
  "C17": dict(
   level="model_checking", design="6/C17", engine="sse-trie",
